@@ -735,6 +735,9 @@ pub fn gen_facts(r: &mut Prng, cfg: &GenCfg) -> FactSet {
                     let longish = cfg.names >= 3 && r.chance(1, 8);
                     if longish {
                         gen_name(r, cfg.names, cfg.text_safe, true)
+                    } else if r.chance(1, 10) {
+                        // different genes sharing one symbol (the full ontology has 5132 genes and 5127 symbols)
+                        format!("SYM{}", r.below(3))
                     } else {
                         format!("G{}{}", id % 1000, if cfg.names >= 2 && r.chance(1, 6) { "é" } else { "" })
                     }
